@@ -53,6 +53,7 @@ func Exec(req *kernel.Request) (resp *kernel.Response) {
 	}
 	pathSeq++
 	scratch := filepath.Join(os.TempDir(), fmt.Sprintf("verif-eb-%d", os.Getpid()), fmt.Sprintf("p%d", pathSeq))
+	blockChoice = map[int]int{}
 	cl := newCluster(&cfg, scratch)
 	cl.trace = req.Trace
 	if cfg.Clone {
@@ -134,6 +135,10 @@ func tailStr(s string, n int) string {
 // step = one external event, then (when configured) the internal monitor wake-ups it enabled, then the oracles.
 func (cl *cluster) step(ev string) {
 	cl.stepBefore = cl.c.VerifView()
+	cl.opFailed = map[int]bool{}
+	k := strings.Split(ev, ":")[0]
+	cl.opIO = k == "W" || k == "Sy" || k == "Un" || k == "R" || k == "Wb"
+	pendingBefore := len(cl.internal())
 	cl.apply(ev)
 	if len(cl.viol) > 0 {
 		return
@@ -154,6 +159,27 @@ func (cl *cluster) step(ev string) {
 	cl.refreshDetached(v)
 	for i := range cl.nodes {
 		cl.oracleVerify(cl.stepBefore, i, nil)
+	}
+	if cl.opIO && pendingBefore == 0 && len(cl.internal()) == 0 && (cl.wants("c04") || cl.wants("c05") || cl.wants("c02")) {
+		// once the controller is quiescent again: exactly the replicas whose call failed are gone, the others are
+		// still attached in the mode they had
+		after := map[int]string{}
+		for _, r := range v.Replicas {
+			after[nodeOf(r.Address)] = string(r.Mode)
+		}
+		for _, r := range cl.stepBefore.Replicas {
+			n := nodeOf(r.Address)
+			if r.Mode == types.ERR {
+				continue
+			}
+			if cl.opFailed[n] {
+				if m, ok := after[n]; ok && m != string(types.ERR) {
+					cl.violate("failed-replica-still-attached", "failed-replica-still-attached:"+k, fmt.Sprintf("%s: node %d failed its call but is still attached as %s; replicas after: %v", ev, n, m, v.Replicas))
+				}
+			} else if m, ok := after[n]; !ok || m != string(r.Mode) {
+				cl.violate("healthy-replica-detached", "healthy-replica-detached:"+k, fmt.Sprintf("%s: node %d did not fail any call (failed: %v) but it was %s before and is %q afterwards; replicas after: %v", ev, n, keys(cl.opFailed), r.Mode, m, v.Replicas))
+			}
+		}
 	}
 	cl.stateOracles(v)
 	cl.cloneOracle()
@@ -256,6 +282,9 @@ func (cl *cluster) apply(ev string) {
 		if err == nil {
 			cl.terr(ev, cl.rest(i, "setrebuilding", `{"rebuilding":false}`))
 		}
+	case "Wb":
+		blockChoice[cl.nWrites+1] = atoi(f[1])
+		cl.mutatingIO(ev, "W", 0, before, ncalls)
 	case "W", "Sy", "Un":
 		mask := atoi(f[1])
 		for _, n := range maskNodes(mask, cl.cfg.N) {
@@ -351,7 +380,15 @@ func (cl *cluster) apply(ev string) {
 	cl.settle()
 }
 
-func blockOf(id int) int { return (id - 1) % (VolSize / Block) }
+// blockOf: write number id goes to block (id-1) mod 4 unless the event named a block (Wb:<blk>).
+var blockChoice = map[int]int{}
+
+func blockOf(id int) int {
+	if b, ok := blockChoice[id]; ok {
+		return b
+	}
+	return (id - 1) % (VolSize / Block)
+}
 
 func (cl *cluster) writersBefore(v controller.VerifView) []int {
 	var w []int
